@@ -1882,7 +1882,11 @@ where
         self.unexpected(&tag);
         while !self.current_node_in(|n| {
             *n.ns == ns!(html) || mathml_text_integration_point(n) || svg_html_integration_point(n)
-        }) {
+        }) && !(self.current_node_in(|n| n == expanded_name!(mathml "annotation-xml"))
+            && self
+                .sink
+                .is_mathml_annotation_xml_integration_point(&self.current_node()))
+        {
             self.pop();
         }
         self.step(self.mode.get(), Token::Tag(tag))
